@@ -4,7 +4,7 @@
    ./check C17 (real MeterProvider, 1..4 readers of mixed temporality, scripted callbacks, real and scripted clock).
    Histories are arbitrary lists of operations; [op_ok] is what the case parser guarantees (reader indices exist, callback
    identities come from the finite universe); the points handed out are compared on the attribute sets of [attrs]. *)
-From V Require Import C17.Glue C17.ProofsReg C17.ProofsBase C17.ProofsSum C17.ProofsGauge C17.ProofsMeets C17.ProofsHist C17.ProofsLv C17.ProofsTop C17.ProofsWire C17.ProofsRace.
+From V Require Import C17.Glue C17.ProofsReg C17.ProofsBase C17.ProofsSum C17.ProofsGauge C17.ProofsMeets C17.ProofsHist C17.ProofsLv C17.ProofsTop C17.ProofsWire C17.ProofsRace C17.ProofsLts C17.ProofsLtsSpec.
 Local Open Scope Z_scope.
 
 (* ---- "At each collection by a reader every callback registered on an observable instrument is invoked exactly once":
@@ -202,3 +202,65 @@ Theorem race_spec_is_discriminating :
     = fail "callback_once_per_collection:not_invoked".
 Proof. exact race_spec_examples. Qed.
 Print Assumptions race_spec_is_discriminating.
+
+(* ---- the callback registry at lock granularity (coq/C17/Lts.v): an acceptor for the event histories of ORACE cases, for ANY
+   number of threads; [accepted l = Some st] quantifies over every interleaving of collections (Observe holds callbacks_m_ for the
+   whole pass), AddCallback / RemoveCallback / instrument destruction (lock; mutate; unlock).  Assumption: callbacks do not
+   re-enter the registry.  Outside: data races inside the critical section, weak memory.  The implementation's histories are
+   replayed through the extracted acceptor on every run (clause registry_lock_protocol:history_rejected). *)
+Theorem lts_mutual_exclusion : forall l st u v,
+  accepted l = Some st -> holds (l_thr st u) = true -> holds (l_thr st v) = true -> u = v.
+Proof. exact lts_mutual_exclusion_lemma. Qed.
+Print Assumptions lts_mutual_exclusion.
+
+(* while a pass holds the lock no mutation takes effect *)
+Theorem lts_pass_sees_frozen_list : forall l st u r b snap called todo,
+  accepted l = Some st -> l_thr st u = TPass r b snap called todo ->
+  l_regs st = snap /\ map fst snap = called ++ map fst todo.
+Proof. exact lts_pass_sees_frozen_list_lemma. Qed.
+Print Assumptions lts_pass_sees_frozen_list.
+
+(* in each pass every record present at the lock acquisition is called exactly once, in registration order, and nothing else *)
+Theorem lts_pass_calls_every_record_once : forall l st st' u,
+  accepted l = Some st -> accept st (EUnlock u) = Some st' ->
+  forall r b snap called todo, l_thr st u = TPass r b snap called todo ->
+  todo = [] /\ called = map fst (l_regs st) /\ l_regs st' = l_regs st.
+Proof. exact lts_pass_calls_every_record_once_lemma. Qed.
+Print Assumptions lts_pass_calls_every_record_once.
+
+(* "a removed callback (or one whose instrument was destroyed) is never invoked again", for every interleaving: no call of k is
+   entered after a removal of k has returned unless an AddCallback of k that began before the call had not returned when that
+   removal began (the clause of SpecRace.v, on positions of the history) *)
+Theorem lts_removed_never_invoked : forall l st, accepted l = Some st -> forall p t k,
+  nth_error l p = Some (ECall t k) -> call_after_removal (number l) p k = false.
+Proof. exact accepted_never_called_after_removal. Qed.
+Print Assumptions lts_removed_never_invoked.
+
+(* no two callbacks of the registry overlap (in particular no callback runs concurrently with itself) *)
+Theorem lts_callbacks_never_overlap : forall l st, accepted l = Some st -> forall p t k q t' k',
+  nth_error l p = Some (ECall t k) -> nth_error l q = Some (ECall t' k') -> (p < q)%nat -> t' <> t ->
+  exists j, (p < j)%nat /\ (j < q)%nat /\ nth_error l j = Some (EDone t k).
+Proof. exact accepted_exclusive. Qed.
+Print Assumptions lts_callbacks_never_overlap.
+
+(* every accepted history passes the clauses removed_never_invoked and no-self-concurrency of the race SPEC.
+   Full statement: ... /\ check_collections (number l) = []  (the count clause: min <= calls <= max per collection and key).
+   PARTIAL: the count clause is carried at state level by lts_pass_calls_every_record_once (the calls of a pass are exactly the
+   list at its lock acquisition); missing is the counting bridge from that list to SpecRace's min / max over the history. *)
+Theorem accepted_trace_meets_spec_race_partial : forall l st,
+  accepted l = Some st -> check_removed (number l) = [] /\ check_exclusive (number l) = [].
+Proof. exact accepted_trace_meets_spec_race_partial_lemma. Qed.
+Print Assumptions accepted_trace_meets_spec_race_partial.
+
+(* non-vacuity: an accepted interleaving in which RemoveCallback waits for the running pass (and passes all three clauses);
+   histories in which the removal takes the lock during the pass, the pass unlocks early (seeded C17_e), or a removed callback is
+   called in a later pass are rejected at the offending event *)
+Theorem lts_is_discriminating :
+  first_rejected linit lts_waits = None /\
+  (check_removed (number lts_waits) ++ check_collections (number lts_waits) ++ check_exclusive (number lts_waits) = []) /\
+  first_rejected linit lts_steals = Some 12%nat /\
+  first_rejected linit lts_copy = Some 10%nat /\
+  first_rejected linit lts_stale = Some 16%nat /\
+  check_removed (number lts_copy) = fail "removed_never_invoked:after_removal_returned".
+Proof. exact lts_examples. Qed.
+Print Assumptions lts_is_discriminating.
